@@ -95,6 +95,10 @@ func (orc *ReloadableOrchestrator) NewSink(clientAddress string, clientNumber ba
 
 // Shutdown shuts down both of the reloadable orchestrator and the current downstream orchestrator
 func (orc *ReloadableOrchestrator) Shutdown() {
+	// wait for any ongoing reloading to finish, and block new ones while shutting down
+	lockT := orc.downstreamMutex.RLock()
+	defer orc.downstreamMutex.RUnlock(lockT)
+
 	orc.downstream.Shutdown()
 }
 
